@@ -238,6 +238,43 @@ def udp_send_repeats_once_then_reconnects(t, cemi, new_channel):
         assert "tunnel_lost" in tr and t._reconnect_task is None and not t.auto_reconnect
 
 
+class BusyLock:
+    """The send lock while another frame is in flight: the caller queues for it, and the caller's task is
+    cancelled there (xknx.stop(), a timeout around the device call) before it ever gets the lock."""
+
+    async def __aenter__(self):
+        ghost("T").append("queued")
+        raise asyncio.CancelledError()
+
+    async def __aexit__(self, exc_type, exc, tb):
+        ghost("T").append("unlock")
+        return False
+
+
+def _queued_spec(cls):
+    fields = dict(COMMON)
+    fields["_send_lock"] = Obj(BusyLock)
+    if cls is UDPTunnel:
+        fields.update(_invalid_sequence_number_reconnect_task=None, _sequence=None, route_back=True)
+    return Obj(cls, **fields)
+
+
+@lemma("C24", family=[dict(cls=c) for c in ("TCPTunnel", "SecureTunnel", "UDPTunnel")], dynamic_params=lambda fixed: dict(t=_queued_spec({"TCPTunnel": TCPTunnel, "SecureTunnel": SecureTunnel, "UDPTunnel": UDPTunnel}[fixed["cls"]])), params=dict(cemi=CEMI), stubs=[(CEMIFrame, "to_knx", _to_knx), (UDPTunnel, "_send_tunnelling_request", _send_tunnelling_request_udp), (_Tunnel, "_tunnel_lost", _tunnel_lost)])
+def a_sender_cancelled_while_queued_uses_no_counter(cls, t, cemi):
+    """A send_cemi call cancelled while it still waits for the send lock has sent nothing and leaves the
+    counter alone - it belongs to the frame in flight, whose repetition must carry the same counter, and
+    the next new frame must carry the next one."""
+    seq, ch = t.sequence_number, t.communication_channel
+    cancelled = False
+    try:
+        run(t.send_cemi(cemi))
+    except asyncio.CancelledError:
+        cancelled = True
+    assert cancelled
+    assert ghost("T") == ["queued"]
+    assert t.sequence_number == seq and t.communication_channel == ch
+
+
 # ------------------------------------------------------------------ the ACK that confirms a request
 
 
